@@ -122,7 +122,7 @@ def run_C18(chk):
             ys = ('-' if cs[0] < 0 else '') + str(abs(cs[0]))
             txt = '%s-%02d-%02d %02d:%02d:%02d%s' % (ys, cs[1], cs[2], cs[3], cs[4], cs[5], ('.' + frac) if frac else '')
             d15 = '%015d' % fs
-            txt += '|%02d.%s|%s|%02d.%s' % (cs[5], d15, d15[:12], cs[5], d15[:3])
+            txt += '|%02d.%s|%s|%02d.%s|%d' % (cs[5], d15, d15[:12], cs[5], d15[:3], sec)
             want = 'S %s | %s | %s' % (CV.fmt(cs), CV.fmt(cs), txt.encode().hex())
             chk.count('subapi')
             if out != want:
